@@ -30,7 +30,10 @@ CONFIG = {
                     "for unit / precision pairs other than 1 the grid values of the payload are the values llround(x * scaling) "
                     "yields for the doubles the harness builds (coordinates k / scaling with |k| < 2^34), also inside "
                     "Cell::bounding_box (sums and quarter-turn images of such doubles stay within 1e-6 of a grid point)",
-                    "the reserved property names of coq/OasisStd.v are the strings of src/property.cpp"],
+                    "the reserved property names of coq/OasisStd.v are the strings of src/property.cpp",
+                    "a quarter turn has cos / sin exactly 0 / +-1 in the model; libm's cos(pi / 2) = 6e-17 only matters for a box "
+                    "corner exactly half a grid step between two grid points, which the harness avoids (off-grid cases with "
+                    "bounding boxes keep Cell-typed references unrotated)"],
     "thorough_seeds": 1,
 }
 
